@@ -389,7 +389,9 @@ sds_write_header (SF_PRIVATE *psf, int calc_length)
 			return SFE_SDS_BAD_BIT_WIDTH ;
 		} ;
 
-	samp_period = SDS_INT_TO_3BYTE_ENCODE (1000000000 / psf->sf.samplerate) ;
+	/* A sample rate below 1 is refused later in sf_open ; do not divide by it here. */
+	samp_period = (psf->sf.samplerate > 0) ? 1000000000 / psf->sf.samplerate : 0 ;
+	samp_period = SDS_INT_TO_3BYTE_ENCODE (samp_period) ;
 
 	psf_binheader_writef (psf, "e213", BHW2 (0), BHW1 (psds->bitwidth), BHW3 (samp_period)) ;
 
